@@ -11,6 +11,7 @@ import (
 	"io"
 	iofs "io/fs"
 	"os"
+	"os/exec"
 	"path/filepath"
 	"regexp"
 	"sort"
@@ -447,6 +448,13 @@ func lookupIn(d *gdir, name string) refNode {
 // walk resolves comps starting in the directory stack (root first). followLeft is the number of
 // symlinks that may still be followed. Result kinds: file dir link none abs loop.
 func (r *ref) walk(stack []*gdir, comps []string, followFinal bool, followLeft int) (n refNode, plain bool) {
+	return r.walkSeen(stack, comps, followFinal, followLeft, map[*glink]bool{})
+}
+
+// walkSeen: seen holds the links already followed; meeting one again is a symlink loop ("loop", must be an
+// error). A chain of more than followLeft DISTINCT links is "long": POSIX gives ELOOP beyond 40, the property
+// does not pin it down.
+func (r *ref) walkSeen(stack []*gdir, comps []string, followFinal bool, followLeft int, seen map[*glink]bool) (n refNode, plain bool) {
 	stack = append([]*gdir{}, stack...)
 	cur := refNode{kind: "dir", d: stack[len(stack)-1]}
 	for i, c := range comps {
@@ -492,10 +500,14 @@ func (r *ref) walk(stack []*gdir, comps []string, followFinal bool, followLeft i
 			if strings.HasPrefix(nx.l.Target, "/") {
 				return refNode{kind: "abs"}, true
 			}
-			if followLeft == 0 {
+			if seen[nx.l] {
 				return refNode{kind: "loop"}, true
 			}
-			return r.walk(stack, strings.Split(nx.l.Target, "/"), true, followLeft-1)
+			if followLeft == 0 {
+				return refNode{kind: "long"}, false
+			}
+			seen[nx.l] = true
+			return r.walkSeen(stack, strings.Split(nx.l.Target, "/"), true, followLeft-1, seen)
 		default:
 			cur = nx
 		}
@@ -799,7 +811,7 @@ func corpusTrees() []*gdir {
 		{Links: []*glink{{Name: "a", Target: "b"}, {Name: "b", Target: "a"}, {Name: "self", Target: "self"}}},
 		// the tree of fs_test.go (readdir_paging_test.go.txt pages through bar)
 		{Files: []*gfile{foo()}, Dirs: []*gdir{{Name: "bar", Mode: u32(0o777),
-			Dirs: []*gdir{{Name: "empty", Mode: u32(0o777)}},
+			Dirs:  []*gdir{{Name: "empty", Mode: u32(0o777)}},
 			Files: []*gfile{foo(), {Name: "example.go", Content: "example.go", Mode: u32(0o777)}, {Name: "example_test.go", Content: "example_test.go", Mode: u32(0o777)}},
 			Links: []*glink{{Name: "link", Target: "../foo"}, {Name: "badlink", Target: "../../foo"}}}}},
 		chainTree(39), chainTree(40), chainTree(41), chainTree(42),
@@ -830,6 +842,11 @@ func queryPaths(r *lib.Rng, root *gdir, n int) []string {
 		paths = append(paths, e.path)
 	}
 	base := append([]string{}, paths...)
+	if len(paths) > 11 { // keep the case count bounded on wide trees (the oracle-only trees are many)
+		rest := paths[4:]
+		lib.Shuffle(r, rest)
+		paths = paths[:11]
+	}
 	extra := []string{"", "/", "..", "../a", "nope", "a/nope", "./.", "a/..", "//"}
 	for _, p := range base {
 		if p == "." {
@@ -1281,7 +1298,33 @@ func pathFunctionCases(c *lib.Ctx) {
 	}
 }
 
+// loopProbe runs in a child process: a symlink loop that is followed without bound overflows the
+// stack, which no recover() can catch. The parent learns it from the exit status.
+func loopProbe() {
+	for _, t := range corpusTrees()[:1] {
+		b := buildTree(t)
+		fsys := wdSpec{"new", "."}.fs(b)
+		for _, l := range t.Links {
+			doOpen(fsys, l.Name)
+		}
+	}
+	os.Exit(0)
+}
+
+func hasLoopFlavour(fl []string) bool {
+	for _, f := range fl {
+		switch f {
+		case "self", "selfdot", "loop2", "loop3":
+			return true
+		}
+	}
+	return false
+}
+
 func main() {
+	if os.Getenv("C29_LOOP_PROBE") == "1" {
+		loopProbe()
+	}
 	lib.Main("C29", func(c *lib.Ctx) {
 		c.Model("From PlzV Require Import Model.C29.", "C29.case", "C29.check")
 		c.Rule("REAPI Trees built from generated abstract trees (depth<=3, width<=4, files with blobs in an in-memory CAS, node properties) plus symlinks of stated flavours " +
@@ -1290,6 +1333,22 @@ func main() {
 			"(leading/trailing slash, ./, //, .., nonexistent, below a file), ReadDir call sequences on every directory, other working directories via New and ChangeDir. " +
 			"distinct = distinct (tree, operation, name); non-trivial = tree with >=2 entries (ReadDir: directory with >=2 entries; path functions: path with a slash)")
 		rn := &runner{c: c}
+
+		// symlink loops first, in a child process, so that a crash is an observed failing input
+		loopsCrash := false
+		c.Oracle()
+		probe := exec.Command(os.Args[0])
+		probe.Env = append(os.Environ(), "C29_LOOP_PROBE=1")
+		if out, err := probe.CombinedOutput(); err != nil {
+			loopsCrash = true
+			msg := string(out)
+			if len(msg) > 300 {
+				msg = msg[:300]
+			}
+			c.Fail("symlink-loop-crashes-process", "Open of a symlink in a loop (a -> b, b -> a) killed the process: "+err.Error()+": "+msg,
+				map[string]any{"tree": corpusTrees()[0], "op": "open", "name": "a"})
+			c.Note("symlink loops crash the process: trees with loops are left out of the rest of this run")
+		}
 
 		var replay struct {
 			Tree *gdir `json:"tree"`
@@ -1304,11 +1363,14 @@ func main() {
 
 		for i, t := range corpusTrees() {
 			wf := i <= 8 // the last three corpus trees are deliberately ill-formed
+			if loopsCrash && (i == 0 || i == 7 || i == 9) {
+				continue
+			}
 			rn.tree(c.Rng.Fork(), t, wf, false, "corpus", 10, true)
 		}
 
 		// 1. well-formed trees with only good links: TestFS applies
-		n1, m1 := c.Scale(60, 1500), c.Scale(10, 300) // trees; of which with model cases
+		n1, m1 := c.Scale(60, 1500), c.Scale(8, 50) // trees; of which with model cases
 		for i := 0; i < n1; i++ {
 			r := c.Rng.Fork()
 			root := genDir(r, "", 0, genOpts{true, 3, 4})
@@ -1321,7 +1383,7 @@ func main() {
 			rn.tree(r, root, true, true, "wf-loopfree", 6, i < m1)
 		}
 		// 2. well-formed trees with adversarial links
-		n2, m2 := c.Scale(200, 5000), c.Scale(20, 700)
+		n2, m2 := c.Scale(200, 5000), c.Scale(16, 90)
 		flavours := []string{"good", "todir", "dangling", "escape", "abs", "self", "selfdot", "loop2", "loop3", "chain", "empty", "dot", "viaLink", "weird"}
 		for i := 0; i < n2; i++ {
 			r := c.Rng.Fork()
@@ -1331,15 +1393,22 @@ func main() {
 			for j := 0; j < k; j++ {
 				fl = append(fl, lib.Pick(r, flavours))
 			}
+			if loopsCrash && hasLoopFlavour(fl) {
+				continue
+			}
 			addLinks(r, root, fl)
 			rn.tree(r, root, true, false, "wf-adversarial", 6, i < m2)
 		}
 		// 3. ill-formed trees (duplicate names across kinds, missing blobs, missing children): correspondence only
-		n3 := c.Scale(6, 200)
+		n3 := c.Scale(5, 20)
 		for i := 0; i < n3; i++ {
 			r := c.Rng.Fork()
 			root := genDir(r, "", 0, genOpts{false, 2, 3})
-			addLinks(r, root, []string{lib.Pick(r, flavours), lib.Pick(r, flavours)})
+			fl := []string{lib.Pick(r, flavours), lib.Pick(r, flavours)}
+			if loopsCrash && hasLoopFlavour(fl) {
+				continue
+			}
+			addLinks(r, root, fl)
 			var dirs []entry
 			allDirs(root, "", &dirs)
 			for _, d := range dirs {
